@@ -92,11 +92,15 @@ def check_und(t, A, name, case):
     st, k = guarded(bct.number_of_components, A.copy())
     if st != 'ok' or k != m_ref:
         t.viol('number_of_components', 'count', case, observed=k, expected=m_ref)
+    st, out2 = guarded(bct.get_components, A.copy(), no_depend=True)
+    if st != 'ok' or not (np.array_equal(np.asarray(out2[0]), comps) and np.array_equal(np.asarray(out2[1]), sizes)):
+        t.viol('get_components', 'no_depend_flag_changes_nothing', case, observed=out2, expected=[comps, sizes])
     if name in ('binary', 'weighted'):
         off = ~np.eye(n, dtype=bool)
         for fname, f in (('distance_bin', lambda X: bct.distance_bin(X)),
                          ('breadthdist', lambda X: bct.breadthdist(X)[1]),
-                         ('reachdist', lambda X: bct.reachdist(X)[1])):
+                         ('reachdist', lambda X: bct.reachdist(X)[1])) + \
+                ((('reachdist', lambda X: bct.reachdist(X, ensure_binary=False)[1]),) if name == 'binary' else ()):
             st, D = guarded(f, A.copy())
             if st != 'ok':
                 t.viol(fname, 'raises', case, observed=D)
